@@ -27,6 +27,8 @@ CONFIGS = [
 
 
 def body(c):
+    if c.replay:
+        return S.replay_file(c)
     q = c.quick
     rnd = random.Random(c.seed)
     # 1. design level
@@ -65,9 +67,11 @@ def body(c):
             cases = S.gen_stream(c, label, consts, 1, num=1200, seed=c.seed, workers=4, timeout=120)
             cases = rnd.sample(cases, min(len(cases), 350))
         elif big_space:
-            cases = S.gen_stream(c, label, consts, 1, num=12000, seed=c.seed, workers=8, timeout=600)
+            cases = S.gen_stream(c, label, consts, 1, num=4000, seed=c.seed, workers=8, timeout=600)
         else:
             cases = S.gen_stream(c, label, consts, 1, num=None, workers=8, timeout=900)
+        if not q and len(cases) > 1400:
+            cases = rnd.sample(cases, 1400)      # thorough budget: 7 configurations x <= 1400 schedules
         res = S.replay_stream(c, cases, pr, layout, numgo, prefix, "tolist", nvk, chosen, label)
         total += len(cases)
         for h, rr in zip(cases, res):
